@@ -18,6 +18,8 @@
 //	         ULEB128; little-endian double; ULEB128 length prefixed binary; field
 //	         header short form (delta<<4)|type for delta 1..15, long form type
 //	         byte + zig-zag id; bool fields folded into the type nibble; STOP 0;
+//	         (as collection element / map key / value type BOOL is 2, and 1 is
+//	         equally conformant: readers must accept both);
 //	         list/set header (size<<4)|type below 15 elements else 0xF0|type +
 //	         ULEB128 size; map: one byte 0 when empty, else ULEB128 size +
 //	         (ktype<<4)|vtype; message 0x82, (type<<5)|1, ULEB128 seqid,
@@ -65,13 +67,21 @@ func (t T) String() string {
 
 // Value is a node of the logical content tree.
 type Value struct {
-	T      T       `json:"t"`
-	B      bool    `json:"b,omitempty"`  // Bool
-	I      int64   `json:"i,omitempty"`  // Byte, I16, I32, I64
-	F      uint64  `json:"f,omitempty"`  // Double (IEEE bits)
-	S      []byte  `json:"s,omitempty"`  // String
-	ET     T       `json:"et,omitempty"` // List/Set element type, Map value type
-	KT     T       `json:"kt,omitempty"` // Map key type
+	T  T      `json:"t"`
+	B  bool   `json:"b,omitempty"`  // Bool
+	I  int64  `json:"i,omitempty"`  // Byte, I16, I32, I64
+	F  uint64 `json:"f,omitempty"`  // Double (IEEE bits)
+	S  []byte `json:"s,omitempty"`  // String
+	ET T      `json:"et,omitempty"` // List/Set element type, Map value type
+	KT T      `json:"kt,omitempty"` // Map key type
+	// ET1 / KT1: a BOOL element (value) / key type is announced as 1 instead of 2 in
+	// the compact protocol. The compact specification's note on element types
+	// requires readers to accept both ("the only valid value in the original spec
+	// was 2, but ... the de-facto standard ... became 1 instead; as of today both 1
+	// and 2 must be accepted as element type BOOL"). Ignored by the binary protocol
+	// and by Same.
+	ET1    bool    `json:"et1,omitempty"`
+	KT1    bool    `json:"kt1,omitempty"`
 	Elems  []Value `json:"e,omitempty"`  // List/Set elements, Map values
 	Keys   []Value `json:"k,omitempty"`  // Map keys
 	Fields []Field `json:"fs,omitempty"` // Struct fields in wire order
@@ -158,6 +168,14 @@ func (d Dialect) binT(id byte) (T, bool) {
 		}
 	}
 	return 0, false
+}
+
+// elemID is the compact id of a collection element / key type.
+func elemID(t T, one bool) byte {
+	if t == Bool && one {
+		return 1
+	}
+	return compactID[t]
 }
 
 func compactT(id byte) (T, bool) {
@@ -348,9 +366,9 @@ func (e *Encoder) compactValue(v Value, _ bool) {
 	case List, Set:
 		n := len(v.Elems)
 		if n <= 14 && !e.Alt.next() {
-			e.byte1(byte(n)<<4 | compactID[v.ET])
+			e.byte1(byte(n)<<4 | elemID(v.ET, v.ET1))
 		} else {
-			e.byte1(0xF0 | compactID[v.ET])
+			e.byte1(0xF0 | elemID(v.ET, v.ET1))
 			e.uleb(uint64(n))
 		}
 		for _, x := range v.Elems {
@@ -363,7 +381,7 @@ func (e *Encoder) compactValue(v Value, _ bool) {
 			return
 		}
 		e.uleb(uint64(n))
-		e.byte1(compactID[v.KT]<<4 | compactID[v.ET])
+		e.byte1(elemID(v.KT, v.KT1)<<4 | elemID(v.ET, v.ET1))
 		for i := range v.Elems {
 			e.compactValue(v.Keys[i], false)
 			e.compactValue(v.Elems[i], false)
@@ -796,10 +814,10 @@ func (d *Decoder) compactValue(t T) (Value, error) {
 			return v, err
 		}
 		et, ok := compactT(h & 0x0f)
-		if !ok || d.Strict && h&0x0f == 1 {
+		if !ok {
 			return v, fmt.Errorf("thriftspec: unknown compact type id %d", h&0x0f)
 		}
-		v.ET = et
+		v.ET, v.ET1 = et, h&0x0f == 1
 		sz := uint64(h >> 4)
 		if sz == 15 {
 			if sz, err = d.uleb(); err != nil {
@@ -831,10 +849,11 @@ func (d *Decoder) compactValue(t T) (Value, error) {
 		}
 		kt, ok1 := compactT(h >> 4)
 		vt, ok2 := compactT(h & 0x0f)
-		if !ok1 || !ok2 || d.Strict && (h>>4 == 1 || h&0x0f == 1) {
+		if !ok1 || !ok2 {
 			return v, fmt.Errorf("thriftspec: unknown compact type ids %#x", h)
 		}
 		v.KT, v.ET = kt, vt
+		v.KT1, v.ET1 = h>>4 == 1, h&0x0f == 1
 		n, err := d.count(sz)
 		if err != nil {
 			return v, err
